@@ -1,1 +1,2 @@
 import Drv.Codec
+import Drv.Topic
